@@ -760,6 +760,9 @@ impl PaZipCompressor {
             let end = (start + BLOCK_SIZE).min(input.len());
             let block = &input[start..end];
 
+            // compress_sequential_legacy accumulates in self.output_buffer and copies all of it to
+            // its output: start every block with an empty buffer, or block k repeats blocks 0..k
+            self.output_buffer.clear();
             let mut block_output = Vec::new();
             self.compress_sequential(block, &mut block_output)?;
             compressed_blocks.push(block_output);
